@@ -66,8 +66,14 @@ def run(tier: str) -> int:
         mode = r.choice(["app", "app", "sig"])
         ver = r.choice([4, 5, 6, 7, 8, 9, 10])
         exotic = r.random() < 0.06
-        cfg = Cfg(mode=mode, version=ver, subs=r.choice([1, 2, 3, 4]), recursive=r.random() < 0.6, call_bias=r.choice([0.1, 0.2, 0.3]),
-                  byref=r.random() < 0.35, max_depth=r.choice([3, 4]), control_in_operand=exotic)
+        if r.random() < 0.2:
+            # by-reference stream: non-recursive call chains that pass ScratchVars on (and write through them)
+            ver = max(ver, 5)
+            cfg = Cfg(mode=mode, version=ver, subs=r.choice([2, 3, 4]), recursive=False, call_bias=0.35, byref=True, byref_p=0.7,
+                      max_depth=3, max_stmts=4)
+        else:
+            cfg = Cfg(mode=mode, version=ver, subs=r.choice([1, 2, 3, 4]), recursive=r.random() < 0.6, call_bias=r.choice([0.1, 0.2, 0.3]),
+                      byref=r.random() < 0.35, max_depth=r.choice([3, 4]), control_in_operand=exotic)
         g = G(r, cfg)
         p = g.program()
         for k, v in g.stats.items():
@@ -85,6 +91,23 @@ def run(tier: str) -> int:
             stats[f"v{ver}:" + ",".join(f"{k}={v}" for k, v in sorted(opts.items()))] += 1
             bad = exec_diff(case, r, nctx, stats)
             evaluations += nctx
+            verdict = None
+            if not opts.get("scratch_slots"):
+                # certificate check of the whole program against the code-generation model (both conventions)
+                fp = opts.get("frame_pointers", ver >= 8)
+                case.load()
+                verdict = d.ask(f"validateprog p{case.id} t{case.id} {ver} {1 if fp else 0}")
+                stats["validateprog:" + verdict.split(" ")[0]] += 1
+                if verdict.startswith("valid") and "spilled=0" not in verdict:
+                    stats["validateprog:valid with spill code"] += 1
+                if bad is None and not verdict.startswith("valid"):
+                    bad2 = exec_diff(case, r, 150 if tier == "quick" else 1500, stats)
+                    if bad2 is None:
+                        rep.violation(f"certificate check of a call-graph program failed ({verdict[:300]}); no differing context found",
+                                      case.replay_dict(None, {"validate": verdict, "correspondence": "Check.validateProg (model graphs of all routines vs real TEAL)"}),
+                                      no_input=True)
+                        continue
+                    bad = bad2
             if bad is None:
                 if len(samples) < 2 and cfg.recursive:
                     samples.append({"recipe": case.sexp[:700], "version": ver, "options": opts, "mode": mode})
